@@ -94,6 +94,14 @@ theorem externName_sim {g : Graph} (hwf : GraphWF g) (n : Nat) (hn : n < g.nodes
       simp only at hk h3
       subst hk; subst h3
       simp only [Spec.externName, h1, h2, Option.map_some]
+  | defn name =>
+    rw [hk] at hok
+    cases hnd : g.nodes[n] with
+    | mk kd i p =>
+      rw [hnd] at hk hok
+      simp only at hk hok
+      subst hk; subst hok
+      rfl
 
 /-! ### inferred and named argument names -/
 
